@@ -287,7 +287,10 @@ def attr_value(typ):
     if typ == "float":
         return coord()
     if typ == "int":
-        return st.one_of(st.integers(-2 ** 31, 2 ** 31 - 1), st.integers(-3, 3))
+        # the Int type of attributes covers np.int64: the whole 64-bit range, incl. values a double cannot hold (ids, hash keys, time stamps)
+        return st.one_of(st.integers(-2 ** 31, 2 ** 31 - 1), st.integers(-3, 3), st.integers(-2 ** 63, 2 ** 63 - 1),
+                         st.sampled_from([2 ** 53 + 1, -(2 ** 53) - 1, 2 ** 53 - 1, 1234567890123456789, 2 ** 63 - 1, -2 ** 63, 2 ** 31, 2 ** 32 + 1,
+                                          9007199254740993 * 3, 1700000000123456789]))
     if typ == "bool":
         return st.booleans()
     if typ == "complex":
@@ -375,6 +378,14 @@ def case_strategy(draw, fmt):
                 "solids": draw(st.sampled_from([1, 1, 2, 3, 5])), "groups": draw(st.booleans())}
     # the container type of the ignore_elements argument (membership is all that save needs)
     c["ig_form"] = draw(st.sampled_from(["set", "set", "frozenset", "list", "tuple"]))
+    # library-wide switches that must not matter for files; faces / cells handed over as lists, tuples or numpy rows of several integer dtypes
+    c["cfg"]["sort_neighborhoods"] = draw(st.booleans())
+    c["cfg"]["display_duplicate_attribute_warning"] = draw(st.booleans())
+    c["rows_form"] = draw(st.sampled_from(["list", "list", "tuple", "int64", "int32", "int16", "uint8"]))
+    c["var"]["off_colors"] = draw(st.sampled_from([None, None, "index", "rgb", "rgba"]))
+    # file name forms: extension in lower / upper / mixed case, dots and a blank in the path; a failing call before the real one
+    c["name_form"] = draw(st.sampled_from(["m", "m", "m.v1.2", "my mesh", "sub.dir/m", "Mixed"]))
+    c["after_raise"] = draw(st.integers(0, 5)) == 0
     return c
 
 
@@ -404,7 +415,31 @@ def set_config(case):
     import mouette as M
     M.config.export_edges_in_obj = bool(case["cfg"]["export_edges_in_obj"])
     M.config.complete_edges_from_faces = bool(case["cfg"]["complete_edges_from_faces"])
-    M.config.complete_faces_from_cells = True
+    M.config.complete_faces_from_cells = True      # (False: a VolumeMesh cannot even be built - KeyError in _generate_cell_faces; reported, not asserted)
+    M.config.sort_neighborhoods = bool(case["cfg"].get("sort_neighborhoods", True))
+    M.config.display_duplicate_attribute_warning = bool(case["cfg"].get("display_duplicate_attribute_warning", False))
+
+
+UINT8_MAX_NV = 255     # (256 once fix C04-9 is in: export_obj / export_medit compute 'index + 1' in the dtype of the row, 255 + 1 wraps to 0)
+
+
+def rows_form_of(case):
+    rf = case.get("rows_form", "list")
+    if rf == "uint8" and len(case["V"]) > UINT8_MAX_NV:
+        rf = "int16"
+    if rf == "int16" and len(case["V"]) > 32000:
+        rf = "int32"
+    return rf
+
+
+def index_rows(case, rows):
+    import numpy as np
+    rf = rows_form_of(case)
+    if rf == "list":
+        return [list(r) for r in rows]
+    if rf == "tuple":
+        return [tuple(r) for r in rows]
+    return [np.array(r, dtype={"int64": np.int64, "int32": np.int32, "int16": np.int16, "uint8": np.uint8}[rf]) for r in rows]
 
 
 def integral_coords(case):
@@ -430,9 +465,9 @@ def build_mesh(case):
     if case["E"]:
         raw.edges += [tuple(e) for e in case["E"]]
     if case["F"]:
-        raw.faces += [list(f) for f in case["F"]]
+        raw.faces += index_rows(case, case["F"])
     if case["C"]:
-        raw.cells += [list(c) for c in case["C"]]
+        raw.cells += index_rows(case, case["C"])
     cls = {"pointcloud": M.mesh.PointCloud, "polyline": M.mesh.PolyLine, "surface": M.mesh.SurfaceMesh,
            "tets": M.mesh.VolumeMesh, "hexes": M.mesh.VolumeMesh}[case["kind"]]
     m = cls(raw)
@@ -755,6 +790,16 @@ def label_case(case, ctx, N):
     for a in case.get("attrs", []):
         if a["type"] == "str" and any(len(x) > 32 for _, v in a["vals"] for x in (v if isinstance(v, list) else [v])):
             ctx.label("attr:str:long>32:" + ("dense" if a["dense"] else "sparse"))
+    if case["F"] or case["C"]:
+        ctx.label("rows=" + rows_form_of(case))
+    ctx.label("name=" + case.get("name_form", "m"))
+    for a in case.get("attrs", []):
+        if a["type"] == "int" and any(abs(x) > 2 ** 53 for _, v in a["vals"] for x in (v if isinstance(v, list) else [v])):
+            ctx.label("attr:int:>2**53:" + ("dense" if a["dense"] else "sparse") + f":x{a['dim']}")
+    if case["cfg"].get("display_duplicate_attribute_warning"):
+        ctx.label("cfg:duplicate-attribute-warning")
+    if not case["cfg"].get("sort_neighborhoods", True):
+        ctx.label("cfg:sort_neighborhoods=False")
     if case.get("ext_upper"):
         ctx.label("extension=UPPER")
     if case.get("ignore") is not None:
@@ -806,8 +851,24 @@ def fn_roundtrip(case, ctx):
     P = project(N, fmt, cfg, ignore)
     d = tempfile.mkdtemp(prefix="c04_")
     try:
-        path = os.path.join(d, "m." + (fmt.upper() if case.get("ext_upper") else fmt))
+        path = file_path(d, case, "m")
         soup = stl_soup(N["V"], P["F"]) if fmt == "stl" else None
+        if case.get("after_raise"):
+            # a call that must fail (unsupported / unimplemented format) followed by the real one on the same mesh
+            ctx.label("after-raise")
+            for bad in ("bad.ply", "bad.unknownext"):
+                try:
+                    M.mesh.save(m, os.path.join(d, bad))
+                    raised = False
+                except Exception:
+                    raised = True
+                ctx.check(raised, "save:unsupported-accepted", f"save to '{bad}' did not raise")
+            try:
+                M.mesh.load(os.path.join(d, "missing." + fmt))
+            except Exception:
+                pass
+            ctx.check(M.config.export_edges_in_obj == bool(cfg["export_edges_in_obj"]) and M.config.complete_edges_from_faces == bool(cfg["complete_edges_from_faces"]),
+                      "config-changed", "a failing save / load changed a library-wide switch")
         ig_form = case.get("ig_form", "set")
         ig_arg = None if ignore is None else {"set": set, "frozenset": frozenset, "list": list, "tuple": tuple}[ig_form](ignore)
         ig_copy = None if ignore is None else type(ig_arg)(ig_arg)
@@ -849,7 +910,7 @@ def fn_roundtrip(case, ctx):
         if second.get("save"):
             # the same mesh object (and the same ignore set) saved a second time must give the same file
             ctx.label("second:save")
-            path2 = os.path.join(d, "again." + (fmt.upper() if case.get("ext_upper") else fmt))
+            path2 = file_path(d, case, "again")
             ok2, _ = ctx.call("save2", (lambda: M.mesh.save(m, path2)) if ignore is None else (lambda: M.mesh.save(m, path2, ignore_elements=ig_arg)))
             if ok2 and ctx.check(os.path.isfile(path2), "save2:no-file", "second save wrote no file"):
                 data2 = open(path2, "rb").read()
@@ -1005,6 +1066,19 @@ def second_load(ctx, path, mode, snap, exp, P):
                   "load2:differs", f"load(dim={k}) changed the content: {short(s2, 300)} vs {short(snap, 300)}")
 
 
+def file_path(d, case, stem):
+    fmt = case["fmt"]
+    nf = case.get("name_form", "m")
+    ext = fmt.upper() if case.get("ext_upper") else fmt
+    if nf == "Mixed":
+        ext = fmt[:1].upper() + fmt[1:]
+        nf = "m"
+    name = nf.replace("m", stem, 1) if nf != "my mesh" else stem + " mesh"
+    full = os.path.join(d, name + "." + ext)
+    os.makedirs(os.path.dirname(full), exist_ok=True)
+    return full
+
+
 def attr_dropped(cont, ignore):
     ig = set(ignore or [])
     return (cont == "edges" and "edges" in ig) or (cont in ("faces", "face_corners") and "faces" in ig) \
@@ -1027,9 +1101,11 @@ def fn_ext(case, ctx):
     ctx.label("var:floats=" + var["floats"])
     if fmt == "obj" and var.get("groups"):
         ctx.label("var:obj-groups")
+    if fmt == "off" and var.get("off_colors") and F:
+        ctx.label("var:off-face-colours=" + var["off_colors"])
     d = tempfile.mkdtemp(prefix="c04_")
     try:
-        path = os.path.join(d, "x." + (fmt.upper() if case.get("ext_upper") else fmt))
+        path = file_path(d, case, "x")
         extra = {}
         if fmt == "obj":
             ctx.label("var:face_style=" + var["face_style"])
@@ -1216,6 +1292,67 @@ def realise_large(rec):
             "ig_form": "set", "tags": []}
 
 
+# ---- element counts sampled sparsely over a wide range (powers of two and their neighbours: 255, 256, 257, 512, 65536 ...)
+
+COUNTS = [253, 254, 255, 256, 257, 511, 512, 513, 768, 1024, 1280, 2048, 4096, 4097, 65535, 65536, 65537]
+
+
+@st.composite
+def counts_case(draw):
+    fmt = draw(st.sampled_from(["stl", "stl", "stl", "obj", "mesh", "geogram_ascii", "off", "tet", "xyz"]))
+    n = draw(st.one_of(st.sampled_from(COUNTS[:14]), st.sampled_from(COUNTS[:14]), st.sampled_from(COUNTS), st.integers(1, 3000),
+                       st.integers(1, 40).map(lambda k: 256 * k)))
+    return {"fmt": fmt, "strip": {"n": n, "quads": draw(st.booleans()) and fmt != "off", "scale": draw(st.sampled_from([1.0, 1 / 3, 1e-5]))},
+            "cfg": {"export_edges_in_obj": True, "complete_edges_from_faces": draw(st.sampled_from([True, True, False]))},
+            "var": {"blank": False, "spaces": False, "floats": "repr", "seed": draw(st.integers(0, 11)), "face_style": "v", "dim_two_lines": False,
+                    "refs": False, "extra_blocks": False, "comments": False, "end": True, "stl_kind": draw(st.sampled_from(["binary", "binary", "ascii"])),
+                    "indent": False, "solids": draw(st.sampled_from([1, 2])), "groups": False, "off_colors": draw(st.sampled_from([None, "rgb"]))},
+            "rows_form": draw(st.sampled_from(["list", "int32", "uint8"]))}
+
+
+def realise_strip(rec):
+    """a strip with exactly n elements: n triangles (n+2 vertices) or n quads (2n+2 vertices) for the surface formats - stl then
+    holds n resp. 2n facets -, a chain of n tetrahedra for .tet, n points for .xyz"""
+    fmt, n, s = rec["fmt"], rec["strip"]["n"], rec["strip"]["scale"]
+    E, F, C = [], [], []
+    if fmt == "xyz":
+        kind, nv = "pointcloud", n
+    elif fmt == "tet":
+        kind, nv = "tets", n + 3
+        C = [[i, i + 1, i + 2, i + 3] if i % 2 == 0 else [i + 1, i, i + 2, i + 3] for i in range(n)]
+    elif rec["strip"]["quads"]:
+        kind, nv = "surface", 2 * n + 2
+        F = [[2 * i, 2 * i + 2, 2 * i + 3, 2 * i + 1] for i in range(n)]
+    else:
+        kind, nv = "surface", n + 2
+        F = [[i, i + 1, i + 2] if i % 2 == 0 else [i + 1, i, i + 2] for i in range(n)]
+    V = [[(i // 2) * s * 0.7, (i % 2) * s + ((i * 13) % 11) * s / 9.0, ((i * 29) % 17) * s / 3.0] for i in range(nv)]
+    return {"fmt": fmt, "kind": kind, "V": V, "E": E, "F": F, "C": C, "cfg": rec["cfg"], "ignore": None, "attrs": [], "var": rec["var"],
+            "ext_upper": False, "vform": "list", "rows_form": rec.get("rows_form", "list"), "second": {"save": False, "load": None},
+            "ig_form": "set", "tags": []}
+
+
+def count_label(n):
+    return "=256k" if n % 256 == 0 else "=256k+-1" if (n + 1) % 256 == 0 or (n - 1) % 256 == 0 else "other"
+
+
+def fn_counts(case, ctx):
+    full = realise_strip(case)
+    fn_roundtrip(full, ctx)
+    nf = len(full["F"]) * (2 if case["strip"]["quads"] else 1)
+    ctx.label(f"count:{case['fmt']}:{count_label(nf if case['fmt'] == 'stl' else case['strip']['n'])}")
+    if case["strip"]["n"] >= 65535:
+        ctx.label("count:>=65535")
+
+
+def fn_counts_ext(case, ctx):
+    full = realise_strip(case)
+    fn_ext(full, ctx)
+    ctx.label(f"count:{case['fmt']}:{count_label(case['strip']['n'])}")
+    if case["strip"]["n"] >= 65535:
+        ctx.label("count:>=65535")
+
+
 def fn_large(case, ctx):
     full = realise_large(case)
     ctx.label("large:" + case["fmt"])
@@ -1236,6 +1373,8 @@ for _f in ["obj", "mesh", "geogram_ascii", "tet", "xyz", "stl", "off"]:
     SUBCHECKS.append(SubCheck(NAMES[_f], case_strategy(_f), fn_roundtrip, quick=200 if _f == "stl" else 320, thorough=1500))
     SUBCHECKS.append(SubCheck(NAMES[_f] + "_ext", case_strategy(_f), fn_ext, quick=120 if _f == "stl" else 240, thorough=1000))
 # files well above any plausible buffer / chunk size of the readers and writers (1 - 5 MiB); few cases, each costs seconds
+SUBCHECKS.insert(0, SubCheck("counts_ext", counts_case(), fn_counts_ext, quick=48, thorough=60, watchdog=(180, 400)))
+SUBCHECKS.insert(0, SubCheck("counts", counts_case(), fn_counts, quick=72, thorough=80, watchdog=(180, 400)))
 SUBCHECKS.insert(0, SubCheck("large_ext", large_case(), fn_large_ext, quick=24, thorough=12, watchdog=(180, 400)))
 SUBCHECKS.insert(0, SubCheck("large", large_case(), fn_large, quick=24, thorough=12, watchdog=(180, 400)))
 
